@@ -21,7 +21,8 @@ from .c01 import rand_prefix, with_prefix
 PID = "C03"
 RULE = ("seeded random typed programs with name constructs weighted x4 (depth <= 3, up to 5 statements), run plain and "
         "behind a 2-3-yield prefix, 12% with an injected scope error; plus a fixed table of scoping examples from "
-        "syntax.rst.  Non-trivial: >= 2 binders of one name in different scopes (shadowing), or a block with >= 2 "
+        "syntax.rst; plus 525 block-in-block templates (3 outer bindings of A x 5 ways of rebinding it inside a block x 7 inner "
+        "blocks reading it x 5 ways of applying them, A read again afterwards).  Non-trivial: >= 2 binders of one name in different scopes (shadowing), or a block with >= 2 "
         "up-values, or a read that crosses a sub-expression boundary -- and the program has >= 2 binders.  Distinct by "
         "program text.")
 
@@ -189,11 +190,127 @@ def work_random(task):
     return ev
 
 
+# --------------------------------------------------- blocks inside blocks, with rebinding at every level
+
+def _l(v):
+    return ("lit", v, "dec")
+
+
+def _cat(*xs):
+    out = []
+    for x in xs:
+        if x is None:
+            continue
+        if isinstance(x, list):
+            out += x
+        else:
+            out.append(x)
+    return ("cat", out)
+
+
+def _blk(body, ids=()):
+    return ("block", "", tuple(ids), body)
+
+
+APPLY = ("word", "apply")
+ADD = ("word", "add")
+
+
+def shadow_programs():
+    """Outer bindings of A (and B), a block that may rebind A in one of several ways, an inner block
+    that reads A (and B, and a binder of its own), applied directly, through a name, twice, or after
+    having escaped from the outer block; A is read again afterwards."""
+    outs = []
+    outer_a = [("let1", [("let", ("A",), _l(1))]), ("let-multi", [("let", ("A",), ("alt", [_l(1), _l(2)]))]),
+               ("binder", None)]
+    rebinds = [("none", []), ("let", [("let", ("A",), _l(20))]), ("let-from-outer", [("let", ("A",), _cat(("read", "A"), _l(19), ADD))]),
+               ("let-B-first", [("read", "B"), ("word", "drop"), ("let", ("A",), _l(20))]), ("binder", "BINDER")]
+    inners = [("A", _blk(("read", "A"))),
+              ("A+B", _blk(_cat(("read", "A"), ("read", "B"), ADD))),
+              ("B+A", _blk(_cat(("read", "B"), ("read", "A"), ADD))),
+              ("X+A", "XBINDER"),
+              ("nested", _blk(_cat(_blk(("read", "A")), APPLY))),
+              ("nested-rebind", _blk(_cat(("let", ("A",), _l(300)), _blk(_cat(("read", "A"), ("read", "B"), ADD)), APPLY))),
+              ("via-C", _blk(_cat(("let", ("C",), ("read", "A")), _blk(_cat(("read", "C"), ("read", "A"), ADD)), APPLY)))]
+    uses = ["apply", "name", "twice", "escape", "inline-and-block"]
+    for oa, oa_nodes in outer_a:
+        for rb, rb_nodes in rebinds:
+            for inn, inner in inners:
+                for use in uses:
+                    if inner == "XBINDER":
+                        inner_blk = _blk(_cat(("read", "A"), ("read", "X"), ADD), ids=("X",))
+                        feed = [_l(7)]
+                    else:
+                        inner_blk, feed = inner, []
+                    if use == "apply":
+                        tail = feed + [inner_blk, APPLY]
+                    elif use == "name":
+                        tail = [("let", ("F",), inner_blk)] + feed + [("read", "F")]
+                    elif use == "twice":
+                        tail = [("let", ("F",), inner_blk)] + feed + [("read", "F")] + feed + [("read", "F"), ADD]
+                    elif use == "escape":
+                        tail = [inner_blk]
+                    else:   # the inlined read and the block read must agree
+                        tail = feed + [inner_blk, APPLY, ("read", "A"), ADD]
+                    if rb_nodes == "BINDER":
+                        outer_blk = _blk(_cat(tail), ids=("A",))
+                        call = [_l(20), outer_blk, APPLY]
+                    else:
+                        outer_blk = _blk(_cat(rb_nodes, tail))
+                        call = [outer_blk, APPLY]
+                    if use == "escape":
+                        call = call + feed + [APPLY]
+                    after = [("read", "A"), ADD]
+                    body = _cat(("let", ("B",), _l(5)), call, after)
+                    if oa_nodes is None:
+                        prog = _cat(_l(1), ("scope", ("A",), body))
+                    else:
+                        prog = _cat(oa_nodes, body)
+                    outs.append(("%s/%s/%s/%s" % (oa, rb, inn, use), prog))
+    return outs
+
+
+def work_shadow(task):
+    lo, hi = task
+    ev = Evidence()
+    drv = Driver()
+    progs = shadow_programs()
+    try:
+        for name, node in progs[lo:hi]:
+            try:
+                o = run_case(drv, node, ())
+            except DriverCrash as e:
+                ev.violations.append({"property": PID, "query": render(node), "ast": repr(node), "reason": "driver crashed: " + e.report[-2500:],
+                                      "signature": "C03:shadow-crash:" + name})
+                continue
+            except DriverTimeout:
+                ev.inconc("watchdog")
+                continue
+            if o.status == "inconclusive":
+                ev.inconc(o.reason.split(":")[0][:50])
+                continue
+            ev.case(key=("shadow", name), nontrivial=True)
+            ev.label("shadow-template")
+            ev.label("shadow-use:" + name.split("/")[-1])
+            if o.status == "violation":
+                ev.violations.append({"property": PID, "query": o.text, "ast": repr(node), "reason": "%s [%s]" % (o.reason, name),
+                                      "engine_stderr": (o.reply or {}).get("stderr", b"").decode("latin-1")[:600],
+                                      "signature": "C03:shadow:" + name})
+            elif name.endswith("twice") and len(ev.samples) < 12 and hash(name) % 17 == 0:
+                ev.sample({"template": name, "query": o.text, "results": len(o.stream.items) if o.stream else "compile error"})
+    finally:
+        drv.kill()
+    return ev
+
+
 def main(tier, seed):
     t0 = time.time()
     n, depth = (24000, 3) if tier == "quick" else (200000, 3)
     ev = Evidence()
     ev.merge(work_doc(None))
+    nsh = len(shadow_programs())
+    ev.merge(run_pool(work_shadow, [(lo, lo + 40) for lo in range(0, nsh, 40)]))
+    ev.extra["shadow_templates"] = nsh
     per = max(100, n // 48)
     ev.merge(run_pool(work_random, [(seed, s, min(per, n - s), depth) for s in range(0, n, per)]))
     ev.extra["random_programs"] = n
@@ -204,7 +321,8 @@ def main(tier, seed):
                   health={"injected unbound reads detected": ev.labels.get("injected-unbound-detected", 0) > 5,
                           "injected rebinds detected": ev.labels.get("injected-rebound-detected", 0) > 5,
                           "blocks with >= 2 up-values": ev.labels.get("upvalues:2", 0) + ev.labels.get("upvalues:3", 0) > 20,
-                          "shadowing": ev.labels.get("has:shadow", 0) > 50})
+                          "shadowing": ev.labels.get("has:shadow", 0) > 50,
+                          "block-in-block templates": ev.labels.get("shadow-template", 0) > 300})
 
 
 def replay(path):
